@@ -155,6 +155,15 @@ hp = os.path.join(ROOT, "tools", "hook_commits.txt")
 if os.path.exists(hp):
     hooks_commits = [l.strip() for l in open(hp) if l.strip()]
 
+EXTRA_NOTE = {
+ "C28": " Quick tier also runs the FSST / bit-packing workload under Miri (san/legs/C28.sh; timeout or missing toolchain = inconclusive, never a violation).",
+ "C21": " Thorough tier adds a Miri leg (san/legs/C21.sh).", "C34": " Thorough tier adds a Miri leg (san/legs/C34.sh).",
+ "C26": " Thorough tier adds a Miri leg for the pure-Rust codecs (san/legs/C26.sh).", "C27": " Thorough tier adds a Miri leg (san/legs/C27.sh).",
+ "C35": " Thorough tier adds a Miri leg built with +avx,+avx2,+fma (san/legs/C35.sh).", "C40": " Thorough tier adds a Miri leg (san/legs/C40.sh).",
+ "C30": " Uses hook H1 (lance-io feature verif-hooks) for the queue-budget conservation monitor.",
+}
+KNOWN = "Known findings (genuine defects recorded, not repaired) are matched by narrow oracle-computed signatures listed in known_findings.json / known_findings.d/; they print KNOWN-FINDING lines and do not fail the check; any other witness is a VIOLATION."
+
 checks = []
 for pid in sorted(P):
     if pid in NOT_CLAIMED:
@@ -168,7 +177,7 @@ for pid in sorted(P):
         "replay_cmd_template": f"./check {pid} quick --replay {{path}}",
         "engine": engines.get(pid, ""),
         "level_claimed": {"category": cat, "text": text, "design_ref": f"DESIGN.md §{ref}"},
-        "level_note": note or "Held on the executions produced; counts of what was observed are in the evidence file.",
+        "level_note": (note or "Held on the executions produced; counts of what was observed are in the evidence file.") + EXTRA_NOTE.get(pid, "") + " " + KNOWN,
         "technique": "runtime monitoring: " + tech,
     })
 
